@@ -367,7 +367,8 @@ class FakeGpsd(threading.Thread):
                 for i in range(600):
                     if self.stop:
                         break
-                    c.sendall(tpv(i))
+                    if not getattr(self, "silent", False):
+                        c.sendall(tpv(i))
                     time.sleep(0.2)
             elif mode == "once":
                 c.sendall(tpv(0))
